@@ -187,6 +187,32 @@ pub fn gen(seed: u64, tier: &str) -> Vec<Value> {
             for c in sv { for d in sv { one(ResourceInfo::new(a, b, c, d).into(), &mut out); } }
         } }
     }
+    // structured hostile details: a well-formed google.rpc.Status whose `details` are Any messages of every shape -
+    // type URL empty / without slash / non-ASCII / other host / unknown type / a known type, value empty / valid for
+    // another type / garbage, fields present or absent, 0..2 entries, plus a truncated copy of each
+    {
+        fn varint(mut n: usize, out: &mut Vec<u8>) { loop { let b = (n & 0x7f) as u8; n >>= 7; if n == 0 { out.push(b); break; } out.push(b | 0x80); } }
+        fn field(tag: u8, payload: &[u8], out: &mut Vec<u8>) { out.push(tag); varint(payload.len(), out); out.extend_from_slice(payload); }
+        let help = Status::with_error_details_vec(Code::Aborted, "m", vec![Help::new(vec![HelpLink::new("d", "u")]).into()]);
+        // value bytes of a real Help detail: the `value` field of the first Any inside the encoded Status
+        let help_val: Vec<u8> = { let d = help.details(); let i = d.windows(2).rposition(|w| w[0] == 0x12).unwrap_or(0); d[i + 2..].to_vec() };
+        let urls: Vec<Vec<u8>> = vec![b"".to_vec(), b"x".to_vec(), "é".as_bytes().to_vec(), "évènement".as_bytes().to_vec(), b"/".to_vec(), b"type.googleapis.com/".to_vec(),
+            b"type.googleapis.com/google.rpc.Help".to_vec(), b"example.com/google.rpc.Help".to_vec(), b"google.rpc.Help".to_vec(), b"type.googleapis.com/google.rpc.Nope".to_vec(),
+            b"type.googleapis.com/google.rpc.RetryInfo".to_vec(), vec![0xff, 0xfe]];
+        let vals: Vec<Vec<u8>> = vec![vec![], help_val.clone(), vec![0xff, 0xff, 0xff], vec![0x0a, 0x05, 0x61]];
+        let mut anys: Vec<Vec<u8>> = vec![vec![]];                               // an Any with no field at all
+        for u in &urls { for v in &vals { for with_url in [true, false] { for with_val in [true, false] {
+            if !with_url && u != &urls[0] { continue; }
+            let mut a = vec![]; if with_url { field(0x0a, u, &mut a); } if with_val { field(0x12, v, &mut a); } anys.push(a);
+        } } } }
+        let mut bodies: Vec<Vec<u8>> = vec![];
+        for a in &anys { let mut b = vec![0x08, 0x0a]; field(0x12, b"m", &mut b); field(0x1a, a, &mut b); bodies.push(b);
+            let mut b2 = vec![]; field(0x1a, a, &mut b2); bodies.push(b2); }
+        for (i, a) in anys.iter().enumerate() { let mut b = vec![]; field(0x1a, a, &mut b); field(0x1a, &anys[(i * 7 + 3) % anys.len()], &mut b); bodies.push(b); }
+        let whole = bodies.clone();
+        for b in whole { if b.len() > 2 { bodies.push(b[..b.len() - 1].to_vec()); } }
+        for b in bodies { out.push(json!({"form":"hostile","class":"hostile_any_shapes","code":10,"msg":str_json("m"),"bytes":bytes_json(&b),"details":[]})); }
+    }
     // hostile details bytes
     let n = if tier == "thorough" { 4000 } else { 500 };
     for _ in 0..n {
